@@ -825,12 +825,24 @@ func assign(n *node) {
 			t[i] = reflect.New(types[i]).Elem()
 			t[i].Set(s(f))
 		}
+		// The map and key operands of the map entries on the left hand side are
+		// evaluated before any assignment is carried out too.
+		var maps, keys []reflect.Value
+		for i, j := range ivalue {
+			if j == nil || n.child[i].ident == "_" {
+				continue
+			}
+			if maps == nil {
+				maps, keys = make([]reflect.Value, len(ivalue)), make([]reflect.Value, len(ivalue))
+			}
+			maps[i], keys[i] = fixArg(dvalue[i](f)), fixArg(j(f))
+		}
 		for i, d := range dvalue {
 			if n.child[i].ident == "_" {
 				continue
 			}
-			if j := ivalue[i]; j != nil {
-				d(f).SetMapIndex(j(f), t[i]) // Assign a map entry
+			if ivalue[i] != nil {
+				maps[i].SetMapIndex(keys[i], t[i]) // Assign a map entry
 			} else {
 				d(f).Set(t[i]) // Assign a var or array/slice entry
 			}
